@@ -248,4 +248,42 @@ def readResponsesOf {α} (dec : Bytes → Option α) (limit : Nat) (data : Bytes
 def readResponses (limit : Nat) (data : Bytes) (cuts : List Nat) : Option (List HeaderResponse) :=
   readResponsesOf decodeResponse limit data cuts
 
+/-! ### (S9) a reader whose `fail`-th `read` call returns an I/O error
+
+`Ok(Err(e)) => return Err(e)` in `read_up_to`: the error is returned whatever has been read so far,
+provided that call is made at all (no further `read` once the buffer is full or after EOF).
+`none` = `Err(e)`.  `i` = number of `read` calls made so far. -/
+
+def readUpToFailAux (limit fail : Nat) : Nat → Bytes → Bytes → List Nat → Option Bytes
+  | i, acc, data, [] =>
+    -- chunk schedule used up: the reader hands out everything it has
+    if acc.length = limit then some acc
+    else if i = fail then none
+    else
+      let n := min (limit - acc.length) data.length
+      if n = 0 then some acc                                  -- EOF
+      else if (acc ++ data.take n).length = limit then some (acc ++ data.take n)
+      else if i + 1 = fail then none                          -- the read that would have seen EOF
+      else some (acc ++ data.take n)
+  | i, acc, data, c :: cs =>
+    if acc.length = limit then some acc
+    else if i = fail then none
+    else
+      let n := min c (min (limit - acc.length) data.length)
+      if n = 0 then some acc
+      else readUpToFailAux limit fail (i + 1) (acc ++ data.take n) (data.drop n) cs
+
+def readUpToFail (limit : Nat) (data : Bytes) (cuts : List Nat) (fail : Nat) : Option Bytes :=
+  readUpToFailAux limit fail 0 [] data cuts
+
+/-- `HeaderCodec::read_request` over such a reader (`read_up_to(..).await?`) -/
+def readRequestFail (limit : Nat) (data : Bytes) (cuts : List Nat) (fail : Nat) : Option HeaderRequest :=
+  (readUpToFail limit data cuts fail).bind parseHeaderRequest
+
+/-- `HeaderCodec::read_response` over such a reader -/
+def readResponsesFail (limit : Nat) (data : Bytes) (cuts : List Nat) (fail : Nat) : Option (List HeaderResponse) :=
+  (readUpToFail limit data cuts fail).bind (fun buf =>
+    let msgs := parseFrames decodeResponse buf.length buf
+    if msgs.isEmpty then none else some msgs)
+
 end Lumina.Model.Framing
